@@ -843,21 +843,37 @@ func TestExhaustiveScripts(t *testing.T) {
 	}
 	shard, nshards := shardInfo()
 	idx := 0
-	stop := false
+	// The enumeration does not stop at the first violation: every distinct root-cause key is
+	// collected (with its first scenario) so that a broken tree is described completely.
+	type hit struct {
+		n     int
+		first *scenario
+		msg   string
+	}
+	hits := map[string]*hit{}
+	var order []string
+	winners, winnersDestroyed, negAttempts := 0, 0, map[int]bool{}
 	for _, b := range exhaustiveBudgets {
 		enumScripts(bound(b)+1, func(script []step) {
 			idx++
-			if stop || idx%nshards != shard {
+			if idx%nshards != shard {
 				return
 			}
 			sc := &scenario{Mode: modeVF, Budget: b, Script: script, Overwrite: true}
 			d, err, pan := runScenario(sc, endorse.RetrySubmit)
 			v, sum := judge(sc, d, err, pan)
 			if v != nil {
-				ev.SaveReplay("C14", "TestExhaustiveScripts", sc)
-				if !ev.Violation(t, v.Key, "%s", v.Msg) {
-					stop = true
+				if ev.IsKnown(v.Key) {
+					ev.Violation(t, v.Key, "%s", v.Msg)
+					return
 				}
+				h := hits[v.Key]
+				if h == nil {
+					h = &hit{first: sc, msg: v.Msg}
+					hits[v.Key] = h
+					order = append(order, v.Key)
+				}
+				h.n++
 				return
 			}
 			// harness sanity: in this mode every scripted fault of a reached attempt is reachable
@@ -870,16 +886,39 @@ func TestExhaustiveScripts(t *testing.T) {
 			if sum.fired != want {
 				t.Fatalf("harness: %d scripted faults reached but %d fired: %s | %s", want, sum.fired, sc, d.logString())
 			}
+			for _, w := range d.wss {
+				if w.committed {
+					winners++
+					if w.destroyed > 0 {
+						winnersDestroyed++
+					}
+				}
+			}
+			if b < 0 {
+				negAttempts[sum.attempts] = true
+			}
 			ev.Case(name, nontrivial(sum), sc.String(), fmt.Sprintf("b=%d/%s", b, classOf(sc, sum)), sample(sc, d, err))
 		})
 	}
-	if !stop {
-		ev.Exhaustive(name)
+	if len(order) > 0 {
+		for _, k := range order[1:] {
+			t.Logf("also violated: %s on %d scripts, first: %s", k, hits[k].n, hits[k].first)
+		}
+		k := order[0]
+		t.Logf("%d distinct root-cause keys; reporting the first one met (%s, %d scripts)", len(order), k, hits[k].n)
+		ev.SaveReplay("C14", "TestExhaustiveScripts", hits[k].first)
+		ev.Violation(t, k, "%s", hits[k].msg)
+		return
 	}
-	ev.Note("C14: a negative retry budget behaves as zero retries (exactly one attempt); accepted as the reading of 'at most retries-plus-one attempts'")
-	ev.Note("C14: the workspace of the successful attempt is never destroyed by the code (neither before nor after TryCommit); the statement only asks for failed attempts' workspaces to be released, so this is accepted")
-	ev.Note("C14: when workspace creation itself fails there is no workspace, so nothing is expected to be released for that attempt; the error is handed to RetriableError unwrapped")
-	ev.Note("C14: 'ErrNoRetries only when the budget is really used up' is the converse of the listed clause; it is demanded because ErrNoRetries is documented as 'submit fails too many times' and the loop comment says '1 try is 0 retries'")
+	ev.Exhaustive(name)
+	if len(negAttempts) == 1 && negAttempts[1] {
+		ev.Note("C14: a negative retry budget behaves as zero retries (exactly one attempt is made); accepted as the reading of 'at most retries-plus-one attempts'")
+	}
+	if winners > 0 && winnersDestroyed == 0 {
+		ev.Note("C14: the workspace of the successful attempt is never destroyed by the code, neither before nor after TryCommit (%d successful runs observed); the statement only asks for failed attempts' workspaces to be released, so this is accepted", winners)
+	}
+	ev.Note("C14: when workspace creation itself fails there is no workspace, so nothing is expected to be released for that attempt")
+	ev.Note("C14: 'ErrNoRetries only when the budget is really used up' is the converse of the listed clause 'exhausted budget => ErrNoRetries'; it is demanded because ErrNoRetries is documented as 'submit fails too many times to continue' and the loop comment says '1 try is 0 retries'; an implementation that stops early after a retriable error and returns that error is NOT flagged")
 }
 
 // ---------------------------------------------------------------------------------------------
